@@ -9,7 +9,7 @@ JInit == l = 1
 JNext == l < Len(Recs) /\ l' = l + 1
 JSpec == JInit /\ [][JNext]_l
 Ok == E.act.status = "ok"
-IsLkh == E.kind = "lkh" /\ Ok
+IsLkh == E.kind \in {"lkh", "lkhgeo"} /\ Ok
 IsDb == E.kind = "db" /\ Ok
 IsKm == E.kind = "km" /\ Ok
 IsHier == E.kind = "hier" /\ Ok
@@ -19,7 +19,9 @@ Terminates == E.act.status # "timeout"
 NoPanic == E.act.status # "panic"
 LkhPermutation == IsLkh => A_LkhSome(E.act.outs) /\ A_LkhPermutation(E.in.path, E.act.outs)
 LkhSameStart == IsLkh => A_LkhSameStart(E.in.path, E.act.outs)
-LkhNotWorse == IsLkh => A_LkhNotWorse(E.in.m, E.in.path, E.act.outs)
+\* Euclidean stratum: closed costs are computed by the harness (micro-units), tolerance 1 micro-unit
+LkhNotWorse == IsLkh => IF E.kind = "lkh" THEN A_LkhNotWorse(E.in.m, E.in.path, E.act.outs)
+                        ELSE \A k \in 1..Len(E.act.costOutsU) : E.act.costOutsU[k] <= E.act.costInU + 1
 DbDisjoint == IsDb => A_DbDisjoint(E.act.clusters) /\ A_DbOnlyGivenPoints(E.in.order, E.act.clusters)
 DbGrown == IsDb => A_DbGrown(NbSets, E.in.minPts, E.act.clusters)
 DbCoreClustered == IsDb => A_DbCoreClustered(NbSets, E.in.minPts, E.in.order, E.act.clusters)
